@@ -1,4 +1,5 @@
 #include <solver/ellipsoid.h>
+#include <nano/verif.h>
 
 using namespace nano;
 
@@ -42,6 +43,7 @@ solver_state_t solver_ellipsoid_t::do_minimize(const function_t& function, const
     while (function.fcalls() + function.gcalls() < max_evals)
     {
         const auto gHg = gv.dot(Hm * gv);
+        NANO_VERIF_TRACE("ellipsoid.iter", gHg, f, state.fx(), epsilon, x, g, H);
         if (gHg < std::numeric_limits<scalar_t>::epsilon())
         {
             const auto iter_ok   = true;
